@@ -221,3 +221,140 @@ Proof.
     destruct (add_handle s _) as [s1 hh]. cbn [snd]. reflexivity.
   - destruct (add_handle s _) as [s1 hh]. cbn [snd]. reflexivity.
 Qed.
+
+(* ---- C_DestroyObject: the guards (handle, write access, CKA_DESTROYABLE) of the model are those of the regenerated code;
+   the destruction itself (zz_rest) answers CKR_OK ------------------------------------------------------------------------ *)
+Definition destroy_env (s : state) (h oh : N) (x : session) : C_DestroyObject.env :=
+  let ob := match get_object s oh with Some (_, _, o) => o | None => [] end in
+  C_DestroyObject.mk (fun _ => match get_object s oh with Some _ => 1 | None => 0 end) (fun _ => 1) gen_haveWrite
+                     (fun a d => b2n (obj_bool ob a d)) 1 (sess_state s x) 1 1 CKR_OK h oh.
+
+Theorem destroy_model_is_code (s : state) (h oh : N) (x : session) :
+  st_init s = true -> get_session s h = Some x ->
+  rv_of (snd (step s (ODestroy h oh))) = Some (C_DestroyObject.app (destroy_env s h oh x)).
+Proof.
+  intros Hi Hs. unfold step. rewrite Hi. cbn [negb]. rewrite Hs.
+  unfold destroy_env. C_DestroyObject.open_env. cbn [N.eqb negb orb].
+  destruct (get_object s oh) as [[[e loc] ob]|] eqn:Eo; cbn [N.eqb negb orb snd rv_of]; [|reflexivity].
+  unfold have_write, o_token, o_private. cbv [CKA_TOKEN CKA_PRIVATE CKA_DESTROYABLE CKR_OK CKR_ACTION_PROHIBITED].
+  set (rv := gen_haveWrite (sess_state s x) (b2n (obj_bool ob 1 false)) (b2n (obj_bool ob 2 true))).
+  destruct (rv =? 0) eqn:Er; cbn [negb snd rv_of].
+  - destruct (obj_bool ob 370 true); cbn [b2n N.eqb negb snd rv_of]; reflexivity.
+  - destruct (rv =? 257); destruct (rv =? 181); reflexivity.
+Qed.
+
+(* ---- C_FindObjectsInit: what the code hands to the search loop.  The regenerated prefix passes its local
+   `isPublicSession` to the rest of the function; the model's flag `public` (which decides whether private objects are
+   skipped) is that value, and the only refusal before the loop (an operation in progress) is the model's. -------------- *)
+Definition model_public (st : N) : bool := negb ((st =? CKS_RO_USER_FUNCTIONS) || (st =? CKS_RW_USER_FUNCTIONS)).
+
+Definition findinit_env (s : state) (h : N) (x : session) (rest : bool -> N) (ptr cnt : N) : C_FindObjectsInit.env :=
+  C_FindObjectsInit.mk (fun _ => 1) (s_op x) 1 (sess_state s x) 1 1 rest h ptr cnt.
+
+Theorem findinit_code_passes_model_public (s : state) (h : N) (x : session) (rest : bool -> N) (ptr cnt : N) :
+  (ptr <> 0 \/ cnt = 0) ->
+  C_FindObjectsInit.app (findinit_env s h x rest ptr cnt)
+  = if negb (s_op x =? SESSION_OP_NONE) then CKR_OPERATION_ACTIVE else rest (model_public (sess_state s x)).
+Proof.
+  intros Hp. unfold findinit_env, model_public. C_FindObjectsInit.open_env. cbn [N.eqb negb orb].
+  assert (Hg : ((ptr =? 0) && negb (cnt =? 0)) = false).
+  { destruct Hp as [Hp|Hp].
+    - destruct (N.eqb_spec ptr 0) as [E|E]; [contradiction|reflexivity].
+    - subst cnt. cbn. apply Bool.andb_false_r. }
+  rewrite Hg. cbv [SESSION_OP_NONE CKR_OPERATION_ACTIVE CKS_RO_USER_FUNCTIONS CKS_RW_USER_FUNCTIONS].
+  destruct (sess_state s x =? 1); destruct (sess_state s x =? 3); destruct (s_op x =? 0); reflexivity.
+Qed.
+
+(* the model's step uses exactly that flag and that refusal *)
+Theorem findinit_model_is_code (s : state) (h : N) (x : session) (tm : template) (prio : list bytes) :
+  st_init s = true -> get_session s h = Some x ->
+  negb (s_op x =? SESSION_OP_NONE) = true ->
+  rv_of (snd (step s (OFindInit h tm prio))) = Some (C_FindObjectsInit.app (findinit_env s h x (fun _ => CKR_OK) 1 0)).
+Proof.
+  intros Hi Hs Hop. rewrite findinit_code_passes_model_public by (left; discriminate).
+  unfold step. rewrite Hi. cbn [negb]. rewrite Hs, Hop. reflexivity.
+Qed.
+
+Theorem findinit_model_uses_public (s : state) (h : N) (x : session) (tm : template) (prio : list bytes) :
+  st_init s = true -> get_session s h = Some x -> (s_op x =? SESSION_OP_NONE) = true ->
+  forallb (fun e => match te_val e with Some b => blen b =? te_len e | None => te_len e =? 0 end) tm = true ->
+  step s (OFindInit h tm prio)
+  = match find_loop (tctx_of s (s_tok x)) (model_public (sess_state s x)) (s_tok x) h tm (order_cands prio (candidates s (s_tok x))) s [] with
+    | None => (s, RUnmodelled)
+    | Some (s1, hs) => (upd_session s1 h (fun x => set_s_op x SESSION_OP_FIND hs), RRv CKR_OK)
+    end.
+Proof.
+  intros Hi Hs Hop Htm. unfold step. rewrite Hi. cbn [negb]. rewrite Hs, Hop, Htm. reflexivity.
+Qed.
+
+(* ---- C_GetAttributeValue / C_SetAttributeValue: the access decision before any attribute is touched ------------------- *)
+Definition obj_of (s : state) (oh : N) : obj := match get_object s oh with Some (_, _, o) => o | None => [] end.
+Definition getattr_env (s : state) (h oh : N) (x : session) (rest ptr cnt : N) : C_GetAttributeValue.env :=
+  C_GetAttributeValue.mk (fun _ => match get_object s oh with Some _ => 1 | None => 0 end) (fun _ => 1)
+                         (fun st _ priv => gen_haveRead st priv)
+                         (fun a d => b2n (obj_bool (obj_of s oh) a d)) 1 (sess_state s x) 1 1 rest h oh ptr cnt.
+Definition setattr_env (s : state) (h oh : N) (x : session) (rest ptr cnt : N) : C_SetAttributeValue.env :=
+  C_SetAttributeValue.mk (fun _ => match get_object s oh with Some _ => 1 | None => 0 end) (fun _ => 1) gen_haveWrite
+                         (fun a d => b2n (obj_bool (obj_of s oh) a d)) 1 (sess_state s x) 1 1 rest h oh ptr cnt.
+
+(* the code, in terms of the model's access functions *)
+Theorem getattr_code_guard (s : state) (h oh : N) (x : session) (rest ptr cnt : N) :
+  ptr <> 0 ->
+  C_GetAttributeValue.app (getattr_env s h oh x rest ptr cnt)
+  = match get_object s oh with
+    | None => CKR_OBJECT_HANDLE_INVALID
+    | Some (_, _, ob) => if negb (have_read (sess_state s x) (o_token ob) (o_private ob) =? CKR_OK) then CKR_GENERAL_ERROR else rest
+    end.
+Proof.
+  intros Hp. unfold getattr_env, obj_of. C_GetAttributeValue.open_env. cbn [N.eqb negb orb].
+  destruct (N.eqb_spec ptr 0) as [E|_]; [contradiction|].
+  destruct (get_object s oh) as [[[e loc] ob]|]; cbn [N.eqb negb orb]; [|reflexivity].
+  unfold have_read, o_private. cbv [CKA_PRIVATE CKR_OK CKR_GENERAL_ERROR].
+  destruct (gen_haveRead (sess_state s x) (b2n (obj_bool ob 2 true)) =? 0); cbn [negb]; [reflexivity|].
+  destruct (_ =? 257); reflexivity.
+Qed.
+
+Theorem setattr_code_guard (s : state) (h oh : N) (x : session) (rest ptr cnt : N) :
+  ptr <> 0 ->
+  C_SetAttributeValue.app (setattr_env s h oh x rest ptr cnt)
+  = match get_object s oh with
+    | None => CKR_OBJECT_HANDLE_INVALID
+    | Some (_, _, ob) =>
+        let rv := have_write (sess_state s x) (o_token ob) (o_private ob) in
+        if negb (rv =? CKR_OK) then rv else if negb (obj_bool ob CKA_MODIFIABLE true) then CKR_ACTION_PROHIBITED else rest
+    end.
+Proof.
+  intros Hp. unfold setattr_env, obj_of. C_SetAttributeValue.open_env. cbn [N.eqb negb orb].
+  destruct (N.eqb_spec ptr 0) as [E|_]; [contradiction|].
+  destruct (get_object s oh) as [[[e loc] ob]|]; cbn [N.eqb negb orb]; [|reflexivity].
+  unfold have_write, o_token, o_private. cbv zeta. cbv [CKA_TOKEN CKA_PRIVATE CKA_MODIFIABLE CKR_OK CKR_ACTION_PROHIBITED].
+  set (rv := gen_haveWrite (sess_state s x) (b2n (obj_bool ob 1 false)) (b2n (obj_bool ob 2 true))).
+  destruct (rv =? 0); cbn [negb].
+  - destruct (obj_bool ob 368 true); reflexivity.
+  - destruct (rv =? 257); destruct (rv =? 181); reflexivity.
+Qed.
+
+(* the model's refusals are those *)
+Theorem getattr_model_refusal_is_code (s : state) (h oh : N) (x : session) (q : list (N * option N)) (rest : N) :
+  st_init s = true -> get_session s h = Some x ->
+  (match get_object s oh with None => True
+   | Some (_, _, ob) => negb (have_read (sess_state s x) (o_token ob) (o_private ob) =? CKR_OK) = true end) ->
+  rv_of (snd (step s (OGetAttr h oh q))) = Some (C_GetAttributeValue.app (getattr_env s h oh x rest 1 (N.of_nat (length q)))).
+Proof.
+  intros Hi Hs Hg. rewrite getattr_code_guard by discriminate. unfold step. rewrite Hi. cbn [negb]. rewrite Hs.
+  destruct (get_object s oh) as [[[e loc] ob]|]; [|reflexivity].
+  cbv zeta. rewrite Hg. reflexivity.
+Qed.
+
+Theorem setattr_model_refusal_is_code (s : state) (h oh : N) (x : session) (tm : template) (rest : N) :
+  st_init s = true -> get_session s h = Some x ->
+  (match get_object s oh with None => True
+   | Some (_, _, ob) => negb (have_write (sess_state s x) (o_token ob) (o_private ob) =? CKR_OK) = true
+                        \/ obj_bool ob CKA_MODIFIABLE true = false end) ->
+  rv_of (snd (step s (OSetAttr h oh tm))) = Some (C_SetAttributeValue.app (setattr_env s h oh x rest 1 (N.of_nat (length tm)))).
+Proof.
+  intros Hi Hs Hg. rewrite setattr_code_guard by discriminate. unfold step. rewrite Hi. cbn [negb]. rewrite Hs.
+  destruct (get_object s oh) as [[[e loc] ob]|]; [|reflexivity].
+  cbv zeta. destruct (negb (have_write (sess_state s x) (o_token ob) (o_private ob) =? CKR_OK)) eqn:Ew; [reflexivity|].
+  destruct Hg as [Hg|Hg]; [discriminate|]. rewrite Hg. reflexivity.
+Qed.
